@@ -41,7 +41,7 @@ Theorem C01_log_entries : forall s o vb x, In (vb, x) (log_add s o) ->
      end).
 Proof.
   intros s o vb x H. unfold log_add in H. destruct (s_failed s); [contradiction|].
-  destruct o as [f l sv| |f l sv|cancel|v e|i| |v|ok| |high|v c uuid roll]; try contradiction.
+  destruct o as [f l sv| |f l sv|cancel|v e|i| | |v|ok| |high|v c uuid roll]; try contradiction.
   - left. eauto.
   - left. eauto.
   - right. right. destruct (s_obs s v) as [ob|] eqn:Eo; [|contradiction].
